@@ -120,10 +120,19 @@ def dedup : List Tok → List Tok
 
 /-- well-formed token list for `nsrc` sources: u32 coordinates; a source id is absent or resolves -/
 def wfTok (nsrc : Nat) (t : Tok) : Bool :=
-  t.dl < U32 && t.dc < U32 && t.sl < U32 && t.sc < U32 && t.name < U32 &&
+  t.dl < U32 && t.dc < U32 && t.sl < U32 && t.sc < U32 && t.src < U32 && t.name < U32 &&
   (t.src = NONE || t.src < nsrc)
 
 def wfToks (nsrc : Nat) (ts : List Tok) : Bool := ts.all (wfTok nsrc)
+
+/-- `to_writer` followed by `from_slice` at the level of the mappings / rangeMappings strings, for a
+map whose tokens are `ts` (already ordered, as `SourceMap` keeps them) -/
+def encDec (nsrc nnames : Nat) (ts : List Tok) : Res (List Tok) :=
+  match serializeRangeMappings ts with
+  | .error e => .error e
+  | .ok r => match serializeMappings ts nnames with
+    | .error e => .error e
+    | .ok m => decodeMappings m (r.getD []) nsrc nnames
 
 /-- what C01/C07 demand of `decode (encode ts)` -/
 def roundTripSpec (nnames : Nat) (ts : List Tok) : List Tok :=
